@@ -23,6 +23,10 @@ NAMEID = {'transient': 'urn:oasis:names:tc:SAML:2.0:nameid-format:transient',
           'persistent': 'urn:oasis:names:tc:SAML:2.0:nameid-format:persistent'}
 B = {'post': env.BINDING_POST, 'redirect': env.BINDING_REDIRECT, 'soap': env.BINDING_SOAP}
 _PAIR = {}
+AUTHN = {'password_authority': {'class_ref': sb.PASSWORD, 'authn_auth': 'https://authority.example'},
+         'tls_plain': {'class_ref': 'urn:oasis:names:tc:SAML:2.0:ac:classes:TLSClient'},
+         'nonascii_authority': {'class_ref': 'urn:oasis:names:tc:SAML:2.0:ac:classes:TimeSyncToken',
+                                'authn_auth': u'https://authority.example/\u00e9?a=1&b=<2>'}}
 
 
 def pair(want):
@@ -103,7 +107,7 @@ def replay(case):
     try:
         resp = idp.create_authn_response(identity, 'id1', env.SP_ACS_POST if scn['binding'] != 'redirect' else env.SP_ACS_REDIRECT, env.SP,
                                          name_id=NameID(format=NAMEID[scn['nameid']], text=subject, sp_name_qualifier=env.SP),
-                                         authn={'class_ref': sb.PASSWORD, 'authn_auth': 'https://authority.example'},
+                                         authn=AUTHN[scn.get('authnCtx', 'password_authority')],
                                          sign_response=scn['signResp'], sign_assertion=scn['signAssert'],
                                          encrypt_assertion=scn['enc'], sign_alg=sign_alg, digest_alg=digest_alg, **kw)
         text = str(resp)
@@ -179,6 +183,10 @@ def main():
             problems.append('issuer %r' % out.get('issuer'))
         if out.get('nooa') != out['expected_session']:
             problems.append('session expiry %r, expected %r' % (out.get('nooa'), out['expected_session']))
+        want_ctx = AUTHN[scn.get('authnCtx', 'password_authority')]
+        want_info = [[want_ctx['class_ref'], [want_ctx['authn_auth']] if want_ctx.get('authn_auth') else []]]
+        if out.get('authn_info') != want_info:
+            problems.append('authentication context read as %r, asserted %r' % (out.get('authn_info'), want_info))
         if out.get('n_assertions') != 1:
             problems.append('%r assertion elements in the message' % out.get('n_assertions'))
         for p in problems[:1]:
